@@ -24,7 +24,10 @@ type MEProg struct {
 	Iter     int    `json:"iterations"`
 	Seed     uint64 `json:"seed"`
 	Pert     int    `json:"perturbation"`
-	Failure  string `json:"failure,omitempty"`
+	// Shared: the application keeps one endpoint list (it names an endpoint twice) and hands the same slice to two
+	// MultiEndpoints from two goroutines while a third reads it: the library may read the list, it must not write it
+	Shared  bool   `json:"sharedList,omitempty"`
+	Failure string `json:"failure,omitempty"`
 }
 
 var meUniverse = []string{"a", "b", "c", "d"}
@@ -40,6 +43,37 @@ func RunME(p *MEProg) string {
 	}
 	var wg sync.WaitGroup
 	var bad sync.Map
+	if p.Shared {
+		shared := [][]string{{"a", "b", "b", "c"}, {"c", "c"}, {"a", "b", "c", "a", "d", "b"}, {"d", "a"}}[p.Seed%4]
+		want := append([]string(nil), shared...)
+		me2, err := multiendpoint.NewMultiEndpoint(&multiendpoint.MultiEndpointOptions{Endpoints: shared})
+		if err != nil {
+			return "C13|" + err.Error()
+		}
+		for k := 0; k < 3; k++ {
+			wg.Add(1)
+			go func(k int) {
+				defer wg.Done()
+				for i := 0; i < p.Iter; i++ {
+					switch k {
+					case 0:
+						me.SetEndpoints(shared)
+					case 1:
+						me2.SetEndpoints(shared)
+					default:
+						for j := range shared {
+							if shared[j] != want[j] {
+								bad.Store("shared", fmt.Sprintf("the application's endpoint list changed: %v, was %v", shared, want))
+							}
+						}
+					}
+					if i%4 == 0 {
+						runtime.Gosched()
+					}
+				}
+			}(k)
+		}
+	}
 	for g := 0; g < p.G; g++ {
 		wg.Add(1)
 		go func(g int) {
@@ -73,7 +107,7 @@ func RunME(p *MEProg) string {
 						e := meUniverse[(int(r>>12)+j)%4]
 						l = append(l, e)
 					}
-					if g == 0 { // list replacements come from one goroutine, like UpdateMultiEndpoints does
+					if g == 0 && !p.Shared { // list replacements come from one goroutine, like UpdateMultiEndpoints does
 						me.SetEndpoints(l)
 					} else {
 						me.Current()
@@ -95,6 +129,9 @@ func RunME(p *MEProg) string {
 	time.Sleep(time.Duration(p.RUs+p.DUs+200) * time.Microsecond) // let pending timers fire
 	if v, ok := bad.Load("panic"); ok {
 		return "C05|panic in multiendpoint workload: " + v.(string)
+	}
+	if v, ok := bad.Load("shared"); ok {
+		return "C10,C13|" + v.(string)
 	}
 	return ""
 }
